@@ -117,4 +117,36 @@ def getSupply (st : St) : Rat := st.pool.supply
 def getUtil (st : St) : Rat := st.pool.util
 def getAlloc (st : St) : Rat := st.pool.alloc
 
+/-! ### infinite supply
+
+A pool may report an infinite supply. `supply - backlog` and `supply + surplus` are then IEEE
+sums of infinities: `inf - inf` is NaN, and a NaN bound never applies because every comparison
+with it is false (`_clamp` is written with `<` and `>`).  `none` stands for that NaN. -/
+
+/-- `supply - backlog` for an extended supply -/
+def winLoE (p : Params) : ERat → Option ERat
+  | fin s => some (subFrom s p.backlog)
+  | pinf => match p.backlog with | pinf => none | _ => some pinf
+  | ninf => match p.backlog with | ninf => none | _ => some ninf
+
+/-- `supply + surplus` for an extended supply -/
+def winHiE (p : Params) : ERat → Option ERat
+  | fin s => some (addFin s p.surplus)
+  | pinf => match p.surplus with | ninf => none | _ => some pinf
+  | ninf => match p.surplus with | pinf => none | _ => some ninf
+
+/-- `_clamp` with bounds that may be NaN -/
+def clampO (low : Option ERat) (v : ERat) (high : Option ERat) : ERat :=
+  if (match low with | some l => decide (v < l) | none => false) then low.getD v
+  else if (match high with | some h => decide (h < v) | none => false) then high.getD v
+  else v
+
+/-- `_clamp_demand(value)` at an extended supply -/
+def cdE (p : Params) (s : ERat) (v : Rat) : ERat :=
+  clamp p.min (clampO (winLoE p s) (fin v) (winHiE p s)) p.max
+
+/-- value forwarded to the target by a write of `v` at an extended supply -/
+def fwdE (p : Params) (s : ERat) (v : Rat) : ERat :=
+  if p.g ≠ 1 then cdE p s (floorTo v p.g) else cdE p s v
+
 end Cobald.Standardiser
